@@ -134,6 +134,11 @@ class DictDocument(ProtocolBase):
             min_o, max_o = attrs.min_occurs, attrs.max_occurs
 
             if issubclass(v, Array) and v.Attributes.max_occurs == 1:
+                if val < min_o:
+                    # the array itself is a mandatory member and is missing
+                    raise ValidationError("%r.%s" % (cls, k),
+                             '%%s member must occur at least %d times.' % min_o)
+
                 v, = v._type_info.values()
                 attrs = self.get_cls_attrs(v)
                 min_o, max_o = attrs.min_occurs, attrs.max_occurs
